@@ -5,8 +5,10 @@ scratch worktree /tmp/sw-<ID>), then run the property's quick check against it (
 in meta.json. Paths in the demo are normalised: $WT = a checkout of the library, ./ = the seeded directory."""
 import json, os, re, shutil, subprocess, sys
 pid, k = sys.argv[1], sys.argv[2]
-src, wt = "/tmp/seed-%s/%s" % (pid, k), "/tmp/sw-%s" % pid
-dst = "/verif/seeded/%s-s%s" % (pid, k)
+rnd = sys.argv[3] if len(sys.argv) > 3 else ""
+src, wt = "/tmp/seed%s-%s/%s" % (rnd, pid, k), "/tmp/sw%s-%s" % (rnd, pid)
+name = "%s-%ss%s" % (pid, ("r%s" % rnd) if rnd else "", k)
+dst = "/verif/seeded/" + name
 shutil.rmtree(dst, ignore_errors=True)
 shutil.copytree(src, dst)
 for f in os.listdir(dst):
@@ -37,9 +39,9 @@ meta["confirmed_by_integrator"] = {"ok": confirmed, "how": "tools/confirm_seed.s
 json.dump(meta, open(os.path.join(dst, "meta.json"), "w"), indent=1)
 if not confirmed:
     print("NOT CONFIRMED - not adopting"); shutil.rmtree(dst); sys.exit(1)
-r = subprocess.run(["/verif/tools/selftest.py", "seeded/%s-s%s" % (pid, k)], stdout=subprocess.PIPE, stderr=subprocess.STDOUT, text=True, cwd="/verif")
+r = subprocess.run(["/verif/tools/selftest.py", "seeded/" + name], stdout=subprocess.PIPE, stderr=subprocess.STDOUT, text=True, cwd="/verif")
 print(r.stdout.strip())
-res = [x for x in json.load(open("/verif/selftest_results.json")) if x["name"] == "seeded/%s-s%s" % (pid, k)]
+res = [x for x in json.load(open("/verif/selftest_results.json")) if x["name"] == "seeded/" + name]
 meta["check_result"] = {"cmd": "VERIF_REPO=<scratch worktree with patch> ./check %s --tier quick" % pid, "result": res[0].get("result") if res else "?",
                         "keys": res[0].get("keys") if res else []}
 json.dump(meta, open(os.path.join(dst, "meta.json"), "w"), indent=1)
